@@ -511,9 +511,14 @@ func (s *fsm13) transitionAfterACK(result ACKResult, peerRetransmit bool) receiv
 		return receivedFlightTransition{state: StateWaiting}
 	}
 	if result.Empty || len(result.Messages) != 0 || peerRetransmit {
-		return receivedFlightTransition{
-			state: handleRetransmitTimeout(s.retransmit, &s.retransmitInterval, s.cfg),
+		// Re-send what is still unacknowledged now. This is a reaction to the
+		// peer, not a timeout: the retransmission interval backs off only when
+		// the timer fires.
+		if !s.retransmit {
+			return receivedFlightTransition{state: StateWaiting}
 		}
+
+		return receivedFlightTransition{state: StateSending}
 	}
 
 	return receivedFlightTransition{state: StateWaiting}
